@@ -27,7 +27,8 @@ from pptx.util import Emu, Pt
 # "None-not-documented": None assigned to a number / length / enumeration / string / colour property whose docstring gives no
 # meaning to None - outside the documented domain like any other wrong type (boolean properties take any value by truthiness:
 # there None stays "undoc-None", accepted or refused alike)
-BAD = {"outside-bound", "wrong-type", "wrong-enum", "no-xml-member", "None-not-documented"}
+# "nonfinite": inf / nan for a float property - no documented range contains them
+BAD = {"outside-bound", "wrong-type", "wrong-enum", "no-xml-member", "None-not-documented", "nonfinite"}
 TRIVIAL = {"member", "interior", "random"}
 # an empty element of these (no attribute, no child) says the same as its absence (schema: everything in it is optional, the
 # attribute defaults are the getters' defaults); a rejected assignment that leaves only such an element behind changed nothing
@@ -116,7 +117,7 @@ def fracs(lo, hi, documented, q=1e-5, none=False, span=None):
             for x in (t, up(t), dn(t)):
                 if lo <= x <= hi:
                     v.append((x, "threshold-neighbour"))
-        v += [("abc", "wrong-type"), ([1], "wrong-type"), (INF, "undoc-nonfinite"), (NAN, "undoc-nonfinite"), (None, "None" if none else "None-not-documented")]
+        v += [("abc", "wrong-type"), ([1], "wrong-type"), (INF, "nonfinite"), (NAN, "nonfinite"), (None, "None" if none else "None-not-documented")]
         return _fill(v, rnd, n, lambda r: r.choice([r.uniform(*span), round(r.uniform(*span), 5) + r.choice([4.9e-6, 5e-6, 5.1e-6, -5e-6])]))
     return gen
 
@@ -128,7 +129,7 @@ def angles(none=False):
         for k in (0, 2545199, 21599999):
             t = (k + 0.5) / 60000.0
             v += [(t, "threshold-neighbour"), (up(t), "threshold-neighbour"), (dn(t), "threshold-neighbour")]
-        v += [("abc", "wrong-type"), ([1], "wrong-type"), (INF, "undoc-nonfinite"), (NAN, "undoc-nonfinite"), (None, "None" if none else "None-not-documented")]
+        v += [("abc", "wrong-type"), ([1], "wrong-type"), (INF, "nonfinite"), (NAN, "nonfinite"), (None, "None" if none else "None-not-documented")]
         return _fill(v, rnd, n, lambda r: r.choice([r.uniform(-720, 720), round(r.uniform(0, 360), 4) + r.choice([-1, 1]) * 8.3333e-6]))
     return gen
 
@@ -140,7 +141,7 @@ def doubles(positive=False, none=True):
         v += [(5e-324, "lo-bound"), (1.7976931348623157e308, "hi-bound"), (up(1.0), "threshold-neighbour"), (dn(1.0), "threshold-neighbour")]
         neg = "undoc-nonpositive" if positive else "interior"
         v += [(0, neg), (-0.0, neg), (-2.5, neg), (-1e300, neg)]
-        v += [("abc", "wrong-type"), ([1], "wrong-type"), (INF, "undoc-nonfinite"), (NAN, "undoc-nonfinite"), (None, "None" if none else "None-not-documented")]
+        v += [("abc", "wrong-type"), ([1], "wrong-type"), (INF, "nonfinite"), (NAN, "nonfinite"), (None, "None" if none else "None-not-documented")]
         return _fill(v, rnd, n, lambda r: r.choice([r.uniform(0.001, 1e4), r.random() * 10 ** r.randint(-8, 12), abs(r.gauss(0, 1)) + 1e-3]))
     return gen
 
